@@ -440,7 +440,7 @@ def trivial_cast(value, type_: Type[AnyXSDType]) -> AnyXSDType:  # workaround. W
             return type_(value)  # type: ignore
     if isinstance(value, (bytes, bytearray)) and issubclass(type_, bytearray):
         return type_(value)  # type: ignore
-    if isinstance(value, datetime.date) and issubclass(type_, Date):
+    if isinstance(value, datetime.date) and not isinstance(value, datetime.datetime) and issubclass(type_, Date):
         return Date(value.year, value.month, value.day)
     raise TypeError("{} cannot be trivially casted into {}".format(repr(value), type_.__name__))
 
